@@ -82,6 +82,17 @@ func (c17) Gen(dt *drv.T, c *Ctx) any {
 	}
 	cs.Case.Prog = GenProg(dt, pc)
 	cs.Case.Cfg = genCheckCfg(dt, "TestC17", 40)
+	if chance(dt, "nearbudget", 10) {
+		// a property that skips about ten cases in eleven, with a small N: whether Check still finds N valid cases
+		// within its budget of 10*N skipped ones is often decided by the last few cases - an unusable fail file must
+		// not take anything away from that budget
+		m := drv.IntRange(9, 13).Draw(dt, "skipm")
+		cs.Case.Prog = &Prog{Body: []*Stmt{
+			{Op: "draw", Label: "x", Gen: &GenSpec{K: "int", IK: "Int", Mode: "range", SA: 0, SB: int64(m - 1)}},
+			{Op: "if", Cond: &Cond{Draw: 0, Op: "nmod", M: int64(m), C: 0}, Body: []*Stmt{{Op: "skip", Kind: pick(dt, "skipkind", skipKinds...)}}},
+		}}
+		cs.Case.Cfg.Checks = drv.IntRange(1, 4).Draw(dt, "smallN")
+	}
 	cs.Case.Cfg.NoFailFile = true
 	cs.Case.Cfg.ShrinkNS = 0
 	n := drv.IntRange(1, 5).Draw(dt, "nfiles")
